@@ -15,21 +15,22 @@ Definition never_missed_statement : Prop :=
     idx q s < idx q (apply i c s) /\ fires (ws q s) (touched i c s) = true.
 
 (* refuted: a service id registered again under another name keeps the old name's index row and
-   touches nothing the optimised CheckServiceNodes watch looks at (four more classes below) *)
+   touches nothing the optimised CheckServiceNodes watch looks at (three more classes below; the
+   delete-tree class was repaired in /repo by d2fdf7c and is now covered by the theorem) *)
 Theorem C06_never_missed_refuted : ~ never_missed_statement.
 Proof. exact never_missed_refuted_lemma. Qed.
 Theorem C06_never_missed_refuted_classes :
-  violates w_kvlist /\ violates w_rename /\ violates w_connect /\ violates w_check_moved /\ violates w_csn_connect /\
+  violates w_rename /\ violates w_connect /\ violates w_check_moved /\ violates w_csn_connect /\
   (let s := run (v_log w_rename) st0 in
    res (QCSN "web") (apply 5 (v_c w_rename) s) <> res (QCSN "web") s /\
    fires (ws (QCSN "web") s) (touched 5 (v_c w_rename) s) = false).
 Proof. exact refuted_classes_lemma. Qed.
 
 (* partial: for every query outside the Connect pair (okq), every reachable coherent state and every
-   write that neither re-registers a service id under another name / a check against another service
-   (safe_cmd) nor deletes a tree on a strictly shorter prefix than the listed one (safe_query) *)
+   write that does not re-register a service id under another name or a check against another
+   service (safe_cmd); delete-trees on any prefix included *)
 Theorem C06_never_missed_partial :
-  forall hi s i c q, Reach hi s -> Coherent s -> hi < i -> safe_cmd c s -> safe_query q c ->
+  forall hi s i c q, Reach hi s -> Coherent s -> hi < i -> safe_cmd c s -> safe_query q ->
     res q (apply i c s) <> res q s ->
     idx q s < idx q (apply i c s) /\ fires (ws q s) (touched i c s) = true.
 Proof. exact never_missed_partial_lemma. Qed.
@@ -43,13 +44,15 @@ Proof. exact (conj Coherent_st0 Coherent_apply). Qed.
 Theorem C06_nonzero : forall q s, 1 <= reported q s.
 Proof. exact nonzero_reported. Qed.
 
-(* ---- the index never decreases, except by a tombstone reap ---- *)
+(* ---- the index never decreases, except by a tombstone reap ----
+   (still refuted: a service id registered again under another name makes the old name's index fall
+   back to an older service_last_extinction, 6 -> 4) *)
 Definition monotone_statement : Prop :=
   forall hi s i c q, Reach hi s -> hi < i -> (forall u, c <> Reap u) -> idx q s <= idx q (apply i c s).
 Theorem C06_monotone_refuted : ~ monotone_statement.
 Proof. exact monotone_refuted_lemma. Qed.
 Theorem C06_monotone_partial :
-  forall hi s i c q, Reach hi s -> Coherent s -> hi < i -> safe_cmd c s -> safe_query q c ->
+  forall hi s i c q, Reach hi s -> Coherent s -> hi < i -> safe_cmd c s -> safe_query q ->
     (forall u, c <> Reap u) -> idx q s <= idx q (apply i c s).
 Proof. exact monotone_index. Qed.
 
@@ -66,7 +69,7 @@ Proof. exact loop_lemma. Qed.
 
 (* ---- a query blocked on the old index is woken, re-runs and returns the new index ---- *)
 Theorem C06_wakes :
-  forall hi s i c q, Reach hi s -> Coherent s -> hi < i -> 1 < i -> safe_cmd c s -> safe_query q c ->
+  forall hi s i c q, Reach hi s -> Coherent s -> hi < i -> 1 < i -> safe_cmd c s -> safe_query q ->
     res q (apply i c s) <> res q s ->
     fires (ws q s) (touched i c s) = true /\
     reported q s < reported q (apply i c s) /\
@@ -75,14 +78,20 @@ Theorem C06_wakes :
       = XIndex (reported q (apply i c s)).
 Proof. exact wakes_lemma. Qed.
 
+(* ---- regression: the history that used to lose a KV listing update (index 26 -> 23) ---- *)
+Example C06_deltree_repaired :
+  let s := run (v_log w_kvlist) st0 in
+  res (QKVList "a/b") (apply 27 (KVDeleteTree "a/") s) <> res (QKVList "a/b") s /\
+  idx (QKVList "a/b") s = 26 /\ idx (QKVList "a/b") (apply 27 (KVDeleteTree "a/") s) = 27.
+Proof. exact w_kvlist_repaired. Qed.
+
 (* ---- non-vacuity of the hypotheses ---- *)
 Example C06_hypotheses_met :
-  Reach 8 ex_state /\ Coherent ex_state /\ 8 < 9 /\ safe_cmd ex_cmd ex_state /\ safe_query (QCSN "web") ex_cmd /\
+  Reach 8 ex_state /\ Coherent ex_state /\ 8 < 9 /\ safe_cmd ex_cmd ex_state /\ safe_query (QCSN "web") /\
   res (QCSN "web") (apply 9 ex_cmd ex_state) <> res (QCSN "web") ex_state.
 Proof. exact hypotheses_met_lemma. Qed.
 (* and the refuting writes are exactly the excluded ones *)
 Example C06_hypotheses_exclude_witnesses :
-  ~ cmd_kv_ok (v_q w_kvlist) (v_c w_kvlist) /\
   ~ safe_cmd (v_c w_rename) (run (v_log w_rename) st0) /\
   ~ safe_cmd (v_c w_check_moved) (run (v_log w_check_moved) st0) /\
   ~ okq (v_q w_connect) /\ ~ okq (v_q w_csn_connect).
@@ -97,5 +106,6 @@ Print Assumptions C06_monotone_refuted.
 Print Assumptions C06_monotone_partial.
 Print Assumptions C06_loop.
 Print Assumptions C06_wakes.
+Print Assumptions C06_deltree_repaired.
 Print Assumptions C06_hypotheses_met.
 Print Assumptions C06_hypotheses_exclude_witnesses.
